@@ -135,6 +135,17 @@ check('C17', 'E2-world',
       'DESIGN.md section 7 C17')
 
 
+check('C11', 'E2-world',
+      'Moderate claim: seeded histories of an evolving join graph (join_on_key in all four shapes, JoinLink add / remove through the link '
+      'manager, key and value updates, partner removal from the collection; chains and cycles of up to 4 tables; int / float / string keys of '
+      'mixed storage type and width) with comparisons of a selection on every table, with and without views; oracle is the relational '
+      'definition in Python sets, accepting any partner / path that can answer, requiring IncompatibleAttribute where no chain of joins '
+      'reaches an evaluator, and the recursion guard flag to be off after every call. Sampling, not proof.',
+      'Selections are fresh state objects per comparison; numeric and string keys are never joined with each other; 1-d tables only.',
+      'deterministic simulation: seeded join-graph history + relational reference model (trace validation with allowed-outcome sets)',
+      'DESIGN.md section 7 C11')
+
+
 def na(pid, reason):
     NA[pid] = dict(property_id=pid, reason=reason)
 
